@@ -10,7 +10,11 @@ use crate::canon::panic_text;
 use serde_json::{json, Value as J};
 use std::io::{BufRead, Write};
 use std::sync::mpsc;
+use std::sync::Mutex;
 use std::time::Duration;
+
+/// source location of the last panic (file:line), filled by the panic hook; informational, never compared
+static LAST_PANIC_AT: Mutex<String> = Mutex::new(String::new());
 
 pub fn main() {
   let limit_ms: u64 = std::env::args().nth(2).and_then(|s| s.parse().ok()).unwrap_or(10000);
@@ -24,6 +28,11 @@ pub fn main() {
       std::process::exit(2);
     }
   };
+  std::panic::set_hook(Box::new(|info| {
+    if let (Some(l), Ok(mut g)) = (info.location(), LAST_PANIC_AT.lock()) {
+      *g = format!("{}:{}", l.file(), l.line());
+    }
+  }));
   let stdin = std::io::stdin();
   let stdout = std::io::stdout();
   let mut out = stdout.lock();
@@ -38,7 +47,10 @@ pub fn main() {
     let req: J = serde_json::from_str(&line).unwrap_or(J::Null);
     let (tx, rx) = mpsc::channel();
     let spawned = std::thread::Builder::new().stack_size(stack_mib * 1024 * 1024).spawn(move || {
-      let r = std::panic::catch_unwind(|| one(&req)).unwrap_or_else(|e| json!({"panic": panic_text(e)}));
+      let r = std::panic::catch_unwind(|| one(&req)).unwrap_or_else(|e| {
+        let at = LAST_PANIC_AT.lock().map(|g| g.clone()).unwrap_or_default();
+        json!({"panic": panic_text(e), "at": at})
+      });
       let _ = tx.send(r);
     });
     let r = match spawned {
